@@ -125,13 +125,19 @@ def Ev.kind : Ev → Kind
   | .call _ k => k
   | .fail _ k => k
 
+/-- the happens-before predecessors of `n` that have no output: their calls are inlined in front of `n`. -/
+def unitBefores (g : Graph) (n : Nat) : List Nat := (g.befores n).filter (fun p => isUnit (g.kind p))
+
 /-- the calls inlined in front of a node: its happens-before predecessors that have no output, each preceded
     by its own (↔ the `before_block` of `codegen_call_block`). -/
 def frag (g : Graph) : Nat → Nat → List Ev
   | 0, _ => []
-  | fuel + 1, n =>
-    ((g.befores n).filter (fun p => isUnit (g.kind p))).flatMap
-      (fun p => frag g fuel p ++ [Ev.call p (g.kind p)])
+  | fuel + 1, n => (unitBefores g n).flatMap (fun p => frag g fuel p ++ [Ev.call p (g.kind p)])
+
+/-- components that can return `Err` -/
+def canFail : Kind → Bool
+  | .ctor _ | .handler _ | .mw _ => true
+  | _ => false
 
 structure St where
   /-- nodes for which a code fragment exists (↔ `blocks`) -/
@@ -146,9 +152,12 @@ structure St where
   stuck : Bool := false
   deriving Repr, DecidableEq
 
+/-- the invocation of the component behind node `n` -/
+def evAt (g : Graph) (fails : Kind → Bool) (n : Nat) : Ev :=
+  if canFail (g.kind n) && fails (g.kind n) then Ev.fail n (g.kind n) else Ev.call n (g.kind n)
+
 /-- what running the statement of node `n` logs: the inlined calls, then the component itself. -/
-def emit (g : Graph) (fails : Kind → Bool) (n : Nat) : List Ev :=
-  frag g g.size n ++ [if fails (g.kind n) then Ev.fail n (g.kind n) else Ev.call n (g.kind n)]
+def emit (g : Graph) (fails : Kind → Bool) (n : Nat) : List Ev := frag g g.size n ++ [evAt g fails n]
 
 /-- everything that ran, in order -/
 def outOf (g : Graph) (fails : Kind → Bool) (st : St) : List Ev := st.ran.flatMap (emit g fails)
@@ -291,13 +300,13 @@ def invariantHolds (g : Graph) (nObs : Nat) : Bool :=
 
 /-! ### the shape of an error arm, as a checkable predicate -/
 
-/-- the observers hanging off `enew` that lead, through happens-before edges, to `child`, last first. -/
-def chainBack (g : Graph) : Nat → Nat → List Nat
+/-- the chain of output-less nodes that must happen before `n`, first one first, as long as it is a chain. -/
+def chainOf (g : Graph) : Nat → Nat → List Nat
   | 0, _ => []
   | fuel + 1, n =>
-    match ((g.befores n).filter (fun p => isUnit (g.kind p))).head? with
-    | some p => p :: chainBack g fuel p
-    | none => []
+    match unitBefores g n with
+    | [p] => chainOf g fuel p ++ [p]
+    | _ => []
 
 def observerId : Kind → Option Nat
   | .observer o => some o
@@ -319,7 +328,7 @@ def armShape (g : Graph) (b : Nat) (hk : Kind) (obs : List Nat) : Bool :=
     | [h] =>
       match g.succs h with
       | [ir] =>
-        let chain := (chainBack g g.size ir).reverse
+        let chain := chainOf g g.size ir
         let enews := (g.succs m).filter (fun e => g.kind e == .errorNew)
         g.kind ir == .intoResponse &&
         chain.map (fun o => observerId (g.kind o)) == obs.map some &&
@@ -330,6 +339,48 @@ def armShape (g : Graph) (b : Nat) (hk : Kind) (obs : List Nat) : Bool :=
       | _ => false
     | _ => false
   | _ => false
+
+/-- the `Err` matchers an error handler takes its error from: directly, or through `pavex::Error::new`. -/
+def ehMatchers (g : Graph) (h : Nat) : List Nat :=
+  (g.dataPreds h).filter (fun m => g.kind m == .errMatch) ++
+  ((g.dataPreds h).filter (fun e => g.kind e == .errorNew)).flatMap
+    (fun e => (g.dataPreds e).filter (fun m => g.kind m == .errMatch))
+
+def dedup (l : List Nat) : List Nat := l.foldl (fun acc x => if acc.contains x then acc else acc ++ [x]) []
+
+/-- the nodes `t` is computed from (through arguments). -/
+def ancFrom (g : Graph) : Nat → List Nat → List Nat → List Nat
+  | 0, _, seen => seen
+  | fuel + 1, frontier, seen =>
+    let next := dedup ((frontier.flatMap g.dataPreds).filter (fun n => !seen.contains n))
+    if next.isEmpty then seen else ancFrom g fuel next (seen ++ next)
+
+def dataAnc (g : Graph) (t : Nat) : List Nat := ancFrom g g.size [t] [t]
+
+/-- the nodes in front of which calls are inlined although they are the only argument-consumer of the
+    error handler `h` -/
+def inlinedBelow (g : Graph) (h : Nat) : List Nat :=
+  (List.range g.size).filter (fun n => !isUnit (g.kind n) && !(unitBefores g n).isEmpty && g.dataPreds n == [h])
+
+/-- Local well-formedness of the error arms of a call graph (what `build_call_graph` is meant to
+    produce; checked on every graph pavexc emits):
+    matchers hang off one node; output-less nodes are chained one by one; every error handler takes its
+    error from exactly one `Err` matcher and an `Err` matcher feeds at most one handler; calls are only
+    inlined in front of a node whose single argument is an error handler, at most once per handler;
+    whatever an `Err` arm returns is computed from its handler. -/
+def armsWF (g : Graph) : Bool :=
+  g.ordered && oneParent g &&
+  (List.range g.size).all (fun n => decide ((unitBefores g n).length ≤ 1)) &&
+  (List.range g.size).all (fun h => !isEh (g.kind h) || (ehMatchers g h).length == 1) &&
+  (List.range g.size).all (fun m => g.kind m != .errMatch ||
+    decide (((List.range g.size).filter (fun h => isEh (g.kind h) && (ehMatchers g h).contains m)).length ≤ 1)) &&
+  (List.range g.size).all (fun n => isUnit (g.kind n) || (unitBefores g n).isEmpty ||
+    (match g.dataPreds n with
+     | [h] => isEh (g.kind h) && decide ((inlinedBelow g h).length ≤ 1)
+     | _ => false)) &&
+  (List.range g.size).all (fun m => g.kind m != .errMatch ||
+    ((List.range g.size).filter (fun h => isEh (g.kind h) && (ehMatchers g h).contains m)).all (fun h =>
+      (g.sinksOf m).all (fun t => (dataAnc g t).contains h)))
 
 /-! ## (1) registration: chains, scopes and the designated error handler -/
 
